@@ -3,6 +3,7 @@ from __future__ import annotations
 
 import math
 
+import numpy as np
 import z3
 
 from spec import terms as spec
@@ -96,7 +97,9 @@ def _replay_law(name, label, law):
             "mono_inc": "bad = x <= x2 and not (y <= y2 + tol)",
             "mono_dec": "bad = x <= x2 and not (y >= y2 - tol)",
             "arrays": "xa = np.array([x, x2, x]); xb = np.array([[x, x2], [x2, x]]); r = t.membership(xa); r2 = t.membership(xb);"
-                      " bad = not (same(r, [y, y2, y], 0.0) and same(r2, [[y, y2], [y2, y]], 0.0) and same(xa, [x, x2, x]) and same(xb, [[x, x2], [x2, x]]))",
+                      " bad = not (same(r, [y, y2, y], 0.0) and same(r2, [[y, y2], [y2, y]], 0.0) and same(xa, [x, x2, x]) and same(xb, [[x, x2], [x2, x]]))\n"
+                      "for A in (np.array([x]), np.array([[x]]), np.array([[x], [x2]]), np.array([[x, x2]])):\n"
+                      "    rs = t.membership(A); bad = bad or np.shape(rs) != A.shape or not same(rs, np.vectorize(lambda q: float(t.membership(q)))(A), 0.0)",
         }[law])
         lines.append(f"verdict(bad, '{name}.{law}: x=%r -> %r ; x2=%r -> %r (h=%r)' % (x, y, x2, y2, h))")
         return "\n".join(lines)
@@ -249,13 +252,22 @@ def ob_arrays(name, tier):
             r2 = t.membership(A2)
             e1 = [t.membership(v) for v in xs]
             e2 = [[t.membership(v) for v in row] for row in m]
-            return r1, e1, r2, e2, A1, A2
+            # arrays with one element or axes of length one keep their shape
+            shapes = ([xs[0]], [[xs[0]]], [[xs[0]], [xs[1]]], [[xs[0], xs[1]]])
+            sing = [(t.membership(sym_array(a)), np.shape(np.array(a, dtype=object))) for a in shapes]
+            return r1, e1, r2, e2, A1, A2, sing
 
         for p in ob.paths(pre, body):
             if p.exc is not None:
                 ob.unexpected(pre, p, f"{name}/R/arrays", _inputs(P, h, xs[0], xs[1]), _replay_law(name, f"{name}/R/arrays", "arrays"))
                 continue
-            r1, e1, r2, e2, A1, A2 = p.result
+            r1, e1, r2, e2, A1, A2, sing = p.result
+            wrong = [(kind_of(a), shp) for a, shp in sing if kind_of(a) != ("array", shp)]
+            if wrong:
+                ob.prove(pre, p, False, f"{name}/R/arrays/singleton-shape {wrong[0]}", _inputs(P, h, xs[0], xs[1]), _replay_law(name, f"{name}/R/arrays", "arrays"))
+                continue
+            ob.prove(pre, p, z3.And([all_same(a, e1[:int(np.prod(shp))]) for a, shp in sing]), f"{name}/R/arrays/singleton-axes", _inputs(P, h, xs[0], xs[1]),
+                     _replay_law(name, f"{name}/R/arrays", "arrays"))
             if kind_of(r1) != ("array", (n1,)) or kind_of(r2) != ("array", (2, cols)):
                 ob.error(f"result kinds {kind_of(r1)} {kind_of(r2)}")
                 continue
